@@ -296,6 +296,13 @@ func (r *Renderer) E(v ssa.Value) string {
 		if x.Op == token.MUL {
 			if a, path := rootAlloc(x.X); a != nil && path != "" {
 				breaker = true
+			} else if a != nil {
+				// whole-record copies between locals (p = q … q = p) form cycles through memory as well
+				for _, w := range r.wholeStores[a] {
+					if structCopySource(w) != nil {
+						breaker = true
+					}
+				}
 			}
 		}
 	}
@@ -705,32 +712,85 @@ func (r *Renderer) load(x *ssa.UnOp) string {
 		}
 		return "*" + r.E(x.X)
 	}
-	origin := r.E(x.X) // E(alloc)+path via FieldAddr rendering
+	return r.fieldAt(a, path, x, r.E(x.X), 0)
+}
+
+// fieldAt: the value of field `path` of the local struct variable a as observed right before instruction `at`.
+// origin is the rendering used when the value the variable was (whole-)assigned is still visible.
+func (r *Renderer) fieldAt(a *ssa.Alloc, path string, at ssa.Instruction, origin string, depth int) string {
 	var cands []*ssa.Store
 	for _, s := range r.fieldStores[a] {
 		_, sp := rootAlloc(s.Addr)
 		if sp != path {
 			continue
 		}
-		if r.storeReachesLoad(s, x, a, path) {
+		if r.storeReachesLoad(s, at, a, path) {
 			cands = append(cands, s)
 		}
 	}
-	if len(cands) == 0 {
+	live := r.liveOrigins(at, a, path)
+	if len(cands) == 0 && !r.hasStructCopy(live) {
 		return origin
 	}
-	originLive := r.originReaches(x, a, path)
+	originLive := len(live) > 0
 	if len(cands) == 1 && !originLive {
 		return r.E(cands[0].Val)
 	}
 	var alts []string
 	if originLive {
-		alts = append(alts, origin)
+		if r.hasStructCopy(live) && depth < 4 {
+			// `v := w` copies a whole record: the field keeps the value it had in w at the copy
+			for _, st := range live {
+				w, ok := st.(*ssa.Store)
+				if !ok {
+					alts = append(alts, r.E(a)+path)
+					continue
+				}
+				if src := structCopySource(w); src != nil && src != a {
+					alts = append(alts, r.fieldAt(src, path, w, r.E(src)+path, depth+1))
+				} else {
+					alts = append(alts, r.E(w.Val)+path)
+				}
+			}
+		} else {
+			alts = append(alts, origin)
+		}
 	}
 	for _, s := range cands {
 		alts = append(alts, r.E(s.Val))
 	}
-	return "mix{" + joinSorted(alts) + "}"
+	alts = dedupe(alts)
+	if len(alts) == 1 {
+		return alts[0]
+	}
+	return "mix{" + strings.Join(alts, "|") + "}"
+}
+
+// structCopySource: the local struct variable a whole store copies from (`*a = *src`).
+func structCopySource(w *ssa.Store) *ssa.Alloc {
+	u, ok := w.Val.(*ssa.UnOp)
+	if !ok || u.Op != token.MUL {
+		return nil
+	}
+	src, ok := u.X.(*ssa.Alloc)
+	if !ok {
+		return nil
+	}
+	if _, isStruct := src.Type().(*types.Pointer).Elem().Underlying().(*types.Struct); !isStruct {
+		return nil
+	}
+	return src
+}
+
+func (r *Renderer) hasStructCopy(live []ssa.Instruction) bool {
+	for _, st := range live {
+		if w, ok := st.(*ssa.Store); ok && structCopySource(w) != nil {
+			if len(r.fieldStores[structCopySource(w)]) > 0 {
+				return true
+			}
+		}
+	}
+	return false
 }
 
 func (r *Renderer) wholeStoreBetween(a *ssa.Alloc, s *ssa.Store, l ssa.Instruction) bool {
@@ -848,6 +908,12 @@ func (r *Renderer) storeReachesLoad(s *ssa.Store, l ssa.Instruction, a *ssa.Allo
 // (whole-)assigned / created, i.e. is there a path from a whole store (or the
 // alloc itself) to the load without a store to this field?
 func (r *Renderer) originReaches(l ssa.Instruction, a *ssa.Alloc, path string) bool {
+	return len(r.liveOrigins(l, a, path)) > 0
+}
+
+// liveOrigins: the whole stores to a (and a's creation) from which l is reachable without a store to this
+// field and without another whole store.
+func (r *Renderer) liveOrigins(l ssa.Instruction, a *ssa.Alloc, path string) []ssa.Instruction {
 	kill := func(in ssa.Instruction) bool {
 		st, ok := in.(*ssa.Store)
 		if !ok {
@@ -860,7 +926,9 @@ func (r *Renderer) originReaches(l ssa.Instruction, a *ssa.Alloc, path string) b
 	for _, w := range r.wholeStores[a] {
 		starts = append(starts, w)
 	}
+	var out []ssa.Instruction
 	for _, st := range starts {
+		st := st
 		ps := &PathSearch{Fn: r.fn, From: st, AvoidInstr: func(in ssa.Instruction) bool {
 			if kill(in) {
 				return true
@@ -874,10 +942,10 @@ func (r *Renderer) originReaches(l ssa.Instruction, a *ssa.Alloc, path string) b
 			return false
 		}, IsTarget: func(in ssa.Instruction) bool { return in == l }}
 		if t, _ := ps.Find(); t != nil {
-			return true
+			out = append(out, st)
 		}
 	}
-	return false
+	return out
 }
 
 func isFloat(t types.Type) bool {
